@@ -149,7 +149,7 @@ Definition val_payload (v : cval) : Z :=
 
 Lemma enc_val_payload : forall v, val_payload v <= blen (enc_val v).
 Proof.
-  intros [b|i|n|s|b]; cbn [val_payload enc_val]; try apply blen_nonneg.
+  intros [b|i|n|s|b|]; cbn [val_payload enc_val]; try apply blen_nonneg.
   - rewrite blen_app. pose proof (head_len_pos 2 (blen b)). lia.
   - rewrite blen_app. pose proof (head_len_pos 3 (blen s)). lia.
 Qed.
@@ -403,6 +403,9 @@ Section RoundTrip.
   Lemma node_of_not_big : forall v n, node_of v <> Some (CBig n).
   Proof. intros [s0|b|i0|b| |] n H; cbn in H; discriminate. Qed.
 
+  Lemma node_of_not_other : forall v, node_of v <> Some COther.
+  Proof. intros [s0|b|i0|b| |] H; cbn in H; discriminate. Qed.
+
   (** every entry of a created node can be encoded, if the node's encoding is small *)
   Lemma node_wf : forall i ms,
     inputs_ok i -> meta_nodes (i_meta i) = NOk ms ->
@@ -423,9 +426,10 @@ Section RoundTrip.
       destruct Hr as [<-|[<-|[<-|[<-|[<-|[]]]]]]; cbn [snd wf_val val_payload] in *; try lia;
         try apply to_i64_range; unfold two63 in *; lia.
     - destruct e as [k n]. cbn [fst snd] in *.
-      destruct n as [b|n|n|s0|b]; cbn [wf_val val_payload] in *; try lia; try exact I.
+      destruct n as [b|n|n|s0|b|]; cbn [wf_val val_payload] in *; try lia; try exact I.
       + apply node_of_int in Hv2. subst v. eapply Hints. exact Hv1.
       + exfalso. eapply node_of_not_big. exact Hv2.
+      + exfalso. eapply node_of_not_other. exact Hv2.
   Qed.
 
   (** C26_roundtrip, part 1: the marshalled record unmarshals to the very same record *)
